@@ -195,6 +195,9 @@ HYDRO_SETS = {
     "two": ["density", "pressure"],
     "mhd": ["density", "velocity_x", "velocity_y", "velocity_z", "B_x_left", "B_y_left", "B_z_left", "B_x_right", "B_y_right",
             "B_z_right", "thermal_pressure", "radiative_energy_1", "passive_scalar_1"],
+    # the remaining names of osyris' unit library, a numbered group with two digits and names containing digits / x
+    "alt": ["density", "momentum_x", "momentum_y", "momentum_z", "internal_energy", "temperature", "energy", "radiative_energy_12",
+            "scalar_00", "xray_flux"],
 }
 
 
@@ -463,6 +466,7 @@ def unit_factors(cfg):
         "potential": (v * v, (2, 0, -2, 0, 0)),
         "mass": (d * l ** 3, (0, 1, 0, 0, 0)),
         "B": (math.sqrt(4.0 * math.pi * d * v * v), (0, 0, 0, 0, 1)),     # gauss
+        "temperature": (1.0, (0, 0, 0, 1, 0)),
         "none": (1.0, (0, 0, 0, 0, 0)),
     }
 
@@ -479,6 +483,8 @@ def var_class(name):
         return "pressure"
     if name.startswith("B_"):
         return "B"
+    if name == "temperature":
+        return "temperature"
     if name == "grav_potential":
         return "potential"
     if name.startswith("grav_acceleration"):
